@@ -266,6 +266,9 @@ func c16Check(c c16Case) *Violation {
 			mut = append(append([]byte{}, block[:c.Pos]...), block[c.Pos+1:]...)
 		case "dup":
 			mut = append(append(append([]byte{}, block[:c.Pos+1]...), block[c.Pos]), block[c.Pos+1:]...)
+		case "ins":
+			// one byte more in front of the byte at Pos (in front of a line end: something behind the residues)
+			mut = append(append(append([]byte{}, block[:c.Pos]...), byte(c.Byte)), block[c.Pos:]...)
 		case "swap":
 			mut = append([]byte{}, block...)
 			if c.Pos+1 < len(mut) {
@@ -517,6 +520,7 @@ func TestC16(t *testing.T) {
 			for _, m := range []c16Case{
 				{Op: "del"}, {Op: "dup"}, {Op: "set", Byte: ' '}, {Op: "set", Byte: 'x'}, {Op: "set", Byte: '7'}, {Op: "set", Byte: '\n'}, {Op: "set", Byte: '\t'},
 				{Op: "set", Byte: '0'}, {Op: "set", Byte: '+'}, {Op: "set", Byte: '-'}, {Op: "swap"},
+				{Op: "ins", Byte: ' '}, {Op: "ins", Byte: '\t'}, {Op: "ins", Byte: '\v'}, {Op: "ins", Byte: '\f'}, {Op: "ins", Byte: 0xa0}, {Op: "ins", Byte: 0x85}, {Op: "ins", Byte: 'a'}, {Op: "ins", Byte: '\r'},
 			} {
 				m.Mode, m.Len, m.Alpha, m.Pos = "mutate", n, "acgt", pos
 				if !e4.try(m) {
